@@ -44,7 +44,10 @@ Theorem C08_append : forall fs s p hdr ihdr l cs ts pay,
   exists fs' s', push_line s ts pay fs = (fs', Ok s')
     /\ RepS fs' s' p hdr ihdr (l ++ [(ts, pay)]) cs
     /\ (forall g, ~ In g (all_files s) -> fs_get fs' g = fs_get fs g)
-    /\ all_files s' = all_files s /\ s_cb s' = s_cb s.
+    /\ all_files s' = all_files s /\ s_cb s' = s_cb s
+    /\ of_name (d_file (s_data s')) = of_name (d_file (s_data s))
+    /\ of_name (ix_file (d_index (s_data s'))) = of_name (ix_file (d_index (s_data s)))
+    /\ map cache_files (s_down s') = map cache_files (s_down s).
 Proof. exact push_line_caches. Qed.
 Print Assumptions C08_append.
 
